@@ -4,10 +4,10 @@ CONSTANTS
   Ghost = {"g"}
   Nbr <- Tri_Nbr
   Bound <- Bound_ab
-  VarCols = {"n1", "n2", "n3", "g"}
-  SrcSet = {"n1", "n2", "n3"}
+  VarCols = {"n1", "n3", "g"}
+  SrcSet = {"n1"}
   SrcSvcs = {"a"}
-  DstSet = {"n1", "n2", "n3", "g"}
+  DstSet = {"n1", "n3", "g"}
   DstSvcs = {"a", "u", "ping"}
   TTLs = {0, 1, 2, 3, 4}
   MaxSends = 1
